@@ -1,11 +1,12 @@
 (* C15 — txtar.Write stays inside its directory; txtar-c / txtar-x round trip.
    Only the property theorems, each closed by [exact] of a lemma proved in
    TxtarWrite/WriteFacts.v and TxtarWrite/SavedirFacts.v, with Print Assumptions. *)
-From Coq Require Import List.
+From Coq Require Import List NArith.
 From Coq.Strings Require Import Byte.
 From GI Require Import Lib.Bytes Gen.TxtarWriteConsts Txtar.Txtar
   TxtarWrite.Path TxtarWrite.TxtarWrite TxtarWrite.PathFacts TxtarWrite.WriteFacts
-  TxtarWrite.FuelFacts TxtarWrite.NulFacts TxtarWrite.RelWrite TxtarWrite.GoodWrite TxtarWrite.SavedirFacts.
+  TxtarWrite.FuelFacts TxtarWrite.NulFacts TxtarWrite.RelFacts TxtarWrite.RelWrite TxtarWrite.GoodWrite
+  TxtarWrite.SavedirFacts TxtarWrite.NameFacts.
 Import ListNotations.
 
 (* A cleaned name that the guard of Write lets through (not absolute, not "..", no
@@ -135,3 +136,31 @@ Theorem C15_resolve_nul_free : forall cwd p,
 Proof. exact resolve_nul_free. Qed.
 Print Assumptions C15_resolve_nul_free.
 
+
+(* What tree_ok demands of every file name: the names txtar cannot represent (empty, with
+   leading or trailing white space, containing a newline) are excluded; Examples.v shows
+   the round trip failing for each kind (ex_leading_space_name, ex_newline_name,
+   ex_trailing_cr_name). *)
+Theorem C15_tree_ok_names : forall t p,
+  tree_ok t -> In p (map fst t) ->
+  join_sep p <> [] /\ trim_space (join_sep p) = join_sep p /\ ~ In NL (join_sep p).
+Proof. exact tree_ok_names. Qed.
+Print Assumptions C15_tree_ok_names.
+
+(* The archive name txtar-c computes, strings.TrimPrefix(Walk's path, dir+"/"), is the
+   file's elements joined by "/" (what [savedir] uses) for every directory argument except
+   one that cleans to "/": there the names come out absolute, and txtar-x refuses them
+   (ex_root_dir_names). *)
+Theorem C15_entry_name : forall d0 p,
+  p <> [] -> Forall real p ->
+  entry_name (clean d0) p = if bytes_eqb (clean d0) [SEP] then SEP :: join_sep p else join_sep p.
+Proof. exact entry_name_spec. Qed.
+Print Assumptions C15_entry_name.
+
+(* Permission bits (constants of the MkdirAll / OpenFile calls) under the umask 022 of the
+   harness: created directories are usable by their owner, created files readable and
+   writable; the runner compares the real modes with created_mode. *)
+Theorem C15_created_modes :
+  N.land (created_mode 18 Dir) 448 = 448%N /\ forall d, N.land (created_mode 18 (File d)) 384 = 384%N.
+Proof. exact created_modes_usable. Qed.
+Print Assumptions C15_created_modes.
